@@ -10,6 +10,7 @@ and the new length in byte 7, for every length combination - a sound verdict for
 from ..facts import sh, fileline
 from ..report import RuleResult
 from ..forwarders import is_assert_elem
+from ..wsum import const_inits as wsum_const_inits
 
 ZERO = ('c', 0)
 TOP = ('T',)
@@ -593,4 +594,76 @@ def pfx4(cfg):
             res.find(f, f.loc, 'key_prefix(len, source) is not "the first len bytes of the source prefix" for %s: result bytes %s / length byte %s, expected %s with length %d - after a key-prefix split the new parent carries a wrong prefix, the whole subtree below it becomes unreachable (get misses present keys, a second insert of a present key succeeds)' % (bad[0], [_b(x) for x in bad[1][:7]], _b(bad[1][7]), [_b(x) for x in bad[2]], bad[3]), key='PFX-4:split-ctor', config=cfg.name)
     res.count('prefix-split constructors', n)
     res.floor('prefix-split constructors', 2)
+    return res
+
+
+def pfx5(cfg):
+    """PFX-5: get_u64(key_view) reads no more bytes than the view holds"""
+    res = RuleResult('PFX-5', 'detail::get_u64(key_view) - the word the prefix comparisons of get / insert / remove / seek and the leaf split are computed from - copies min(view size, 8) bytes out of the view: the copy length is a std::min (or an equivalent conditional) over the size of the SAME view and a constant of at most 8, into an 8-byte zero-initialised local. A key (or key suffix below an inner node) shorter than eight bytes is legal for byte-string keys; copying eight bytes regardless reads past its end')
+    n = 0
+    for f in cfg.functions:
+        if not f.blocks or f.short != 'get_u64' or f.cls or not f.params or 'span<' not in (f.params[0].get('t') or ''):
+            continue
+        n += 1
+        res.functions.add(f.sig)
+        view = f.params[0]['did']
+        once = wsum_const_inits(f)
+        copies = [(b, i, e) for b, i, e in f.elements() if e.get('k') == 'call' and e.get('name') in ('memcpy', 'memmove', '__builtin_memcpy', 'copy_n', 'copy')]
+        if not copies:
+            res.incompl('PFX-5: get_u64 has no memcpy-style copy any more (rewritten?)')
+            continue
+
+        def bounded(o, depth=0):
+            """the expression cannot exceed the size of the view"""
+            x = f.strip_casts(o)
+            x = f.resolve(x) if isinstance(x, dict) else x
+            if not isinstance(x, dict) or depth > 6:
+                return False
+            if x.get('k') == 'ref' and x.get('vk') == 'local' and x.get('did') in once:
+                return bounded(once[x['did']], depth + 1)
+            if x.get('k') == 'call' and x.get('name') in ('size', 'size_bytes') and x.get('obj') is not None:
+                r = f.ref_of(x['obj'])
+                return bool(r and r[0] == view)
+            if x.get('k') == 'call' and x.get('name') == 'min' and len(x.get('args', [])) == 2:
+                return any(bounded(a, depth + 1) for a in x['args'])
+            if x.get('k') == 'cond':
+                # c ? a : b with both arms bounded, or the usual `size < 8 ? size : 8` (the constant arm taken only when size >= 8)
+                a_ok, b_ok = bounded(x['a'], depth + 1), bounded(x['b'], depth + 1)
+                if a_ok and b_ok:
+                    return True
+                c = f.resolve(f.strip_casts(x['c']))
+                if isinstance(c, dict) and c.get('k') == 'binop' and c.get('op') in ('<', '<=', '>', '>='):
+                    ls, rs = bounded(c['l'], depth + 1), bounded(c['r'], depth + 1)
+                    kl, kr = const_of(c['l']), const_of(c['r'])
+                    # size OP const
+                    if ls and kr is not None:
+                        small_when_true = c['op'] in ('<', '<=')
+                        return (a_ok and const_of(x['b']) is not None and const_of(x['b']) <= kr and small_when_true) or (b_ok and const_of(x['a']) is not None and const_of(x['a']) <= kr and not small_when_true)
+                    if rs and kl is not None:
+                        small_when_true = c['op'] in ('>', '>=')
+                        return (a_ok and const_of(x['b']) is not None and const_of(x['b']) <= kl and small_when_true) or (b_ok and const_of(x['a']) is not None and const_of(x['a']) <= kl and not small_when_true)
+                return False
+            return False
+
+        def const_of(o):
+            x = f.strip_casts(o)
+            x = f.resolve(x) if isinstance(x, dict) else x
+            if isinstance(x, dict) and x.get('k') in ('int', 'sizeof'):
+                return int(x['v'])
+            if isinstance(x, dict) and x.get('k') == 'ref' and 'cv' in x:
+                return int(x['cv'])
+            return None
+        for b, i, e in copies:
+            args = e.get('args', [])
+            if len(args) != 3:
+                res.incompl('PFX-5: unrecognised copy call in get_u64')
+                continue
+            ln = args[2]
+            ok = bounded(ln)
+            res.ob(ok, {'rule': 'PFX-5', 'function': sh(f.sig)[:80], 'site': fileline(e.get('loc')), 'verdict': 'discharged' if ok else 'VIOLATION'})
+            if not ok:
+                k_ = const_of(ln)
+                res.find(f, e.get('loc'), 'get_u64 copies %s out of the key view without clamping to the view\'s size: a key or key suffix shorter than that (legal for byte-string keys) is read past its end - an out-of-bounds read on every get / insert / remove that compares a prefix below such a key' % ('%d bytes' % k_ if k_ is not None else 'a length that is not bounded by the size of the view'), key='PFX-5:get_u64', config=cfg.name)
+    res.count('get_u64 over a key view', n)
+    res.floor('get_u64 over a key view', 1)
     return res
